@@ -465,3 +465,28 @@ Proof.
   - vm_compute. repeat split.
   - vm_compute. repeat split.
 Qed.
+
+(* everything below a recognised job directory belongs to that job, at any depth: a job that holds a
+   nested signac project (state point files three levels down) and a bare x/y/signac_statepoint.json
+   makes an exact round trip through directory, zip and tar; nothing below it becomes a job of its own
+   (the tar analyser adds every skipped directory to its skip set, so the skip is transitive) *)
+Definition inner_sp (k : Z) : json := JObj [(q "inner", JInt k)].
+Definition j_nest := mkjob "42b7b4f2921788ea14dac5566e6f06d0" (sp_a (JInt 1)) "{""a"": 1}"
+  [([q "x"], None); ([q "x"; q "y"], None); ([q "x"; q "y"; FN_SP], Some (q "{""inner"": 7}"));
+   ([q "analysis"], None); ([q "analysis"; q "workspace"], None);
+   ([q "analysis"; q "workspace"; q "0000000000000000000000000000abc0"], None);
+   ([q "analysis"; q "workspace"; q "0000000000000000000000000000abc0"; FN_SP], Some (q "{""inner"": 8}"));
+   ([q "analysis"; q "workspace"; q "0000000000000000000000000000abc0"; q "out.txt"], Some (q "o"))].
+Definition orc_nest : oracle :=
+  {| o_asc := true; o_frepr := []; o_text := [];
+     o_parse := [(q "{""a"": 1}", sp_a (JInt 1)); (q "{""a"": 2}", sp_a (JInt 2));
+                 (q "{""inner"": 7}", inner_sp 7); (q "{""inner"": 8}", inner_sp 8)];
+     o_rel := false |}.
+Lemma nested_project_example :
+  forall k, In k [KDir; KZip; KTar] ->
+  let e := export_model orc_nest [j_nest; j_a2] k PNone in
+  eo_exn e = None
+  /\ let i := import_model orc_nest SchNone (eo_art e) (dst_init []) in
+     io_exn i = None /\ fs_eqb (io_dst i) (expected_dst [] [j_nest; j_a2]) = true
+     /\ List.length (fs_children WS (io_dst i)) = 2%nat.
+Proof. intros k Hk. destruct Hk as [<-|[<-|[<-|[]]]]; vm_compute; repeat split. Qed.
